@@ -123,7 +123,17 @@ def verdictC06 (s : St) (op : Op Nat) (impl : String) : St × String :=
              (addOK, s!"C06 Add returned {r} which is not the offset of the new element in {fmtNats d}"),
              (remOK, "C06 Remove(p) did not remove the element whose reported position is p")])
 
+/-- `Peek(n)` and `Remove(n)` take a Go `int`: a negative offset is the documented panic "index out of range"
+(observed as `panic:index`), whatever the queue holds, and changes nothing.  The model's `Op` carries naturals, so
+the negative half of the argument range is decided here. -/
+def negOffset : List String → Bool
+  | ["peek", i] | ["remove", i] => match i.toInt? with | some k => k < 0 | none => false
+  | _ => false
+
 def stepWith (which : Nat) (s : St) (toks : List String) (impl : String) : St × String × String :=
+  if negOffset toks then
+    (s, "panic:index", if impl == "panic:index" then "ok" else "bad C05 Peek/Remove of a negative offset must panic (index out of range) and change nothing")
+  else
   match parseOp toks with
   | none => (s, "bad-op", "bad bad-op")
   | some op =>
